@@ -510,3 +510,22 @@ func shrink(p Prop, runOne func(*simrt.Tape) *Outcome, rp *Replay, budget time.D
 	rp.Minimised = true
 	rp.ShrinkRun = runs
 }
+
+var runDirN int
+
+// RunDir creates a fresh root directory for one run (on tmpfs: the driver sets
+// TMPDIR under /dev/shm) and returns it with its cleanup function. Paths below
+// it must never be logged (temp names are not seeded).
+func RunDir() (string, func()) {
+	base := os.Getenv("TMPDIR")
+	if base == "" {
+		base = "/dev/shm"
+	}
+	runDirN++
+	d := fmt.Sprintf("%s/dsim-%d-%d", base, os.Getpid(), runDirN)
+	os.RemoveAll(d)
+	if err := os.MkdirAll(d, 0700); err != nil {
+		panic(err)
+	}
+	return d, func() { os.RemoveAll(d) }
+}
